@@ -14,7 +14,7 @@ use crate::props::c12::to_transform;
 use crate::statejson::{self, lj_shape, Params, ShapeSpec, StateSpec};
 
 pub const TITLE: &str = "The Lennard-Jones score is minus the crystal's lattice energy per molecule";
-pub const RULE: &str = "cases = (group, LJ shape: circle sigma=1 uncut, or trimer radius 0.2..1.2 x angle 0..180 x distance 0..2 with cutoff 3.5) x cell (area per molecule log-uniform in 0.3..20 enclosing-disc areas, ratio 0.1..1, angle pi/6..pi/2 for oblique groups) x site (bound-heavy mixture) x a re-description twin {none, origin shift by (1/2,0),(0,1/2),(1/2,1/2), any shift along a free direction (p1: both; p1m1/p1g1: y), 2-fold re-description (-x,-y,phi+pi) for groups with a 2-fold, a copy moved across a face (x+-1 or y+-1)}; in a fifth of the cases the state object is first scored with another shape and then given the shape under test through its public field (a stale cached score would show). Oracle: the harness enumerates, from the lattice geometry, every unordered pair of distinct molecule images with centre distance below cutoff + 2 molecule radii (uncut: 30 sigma), each once, places the molecules itself and sums the package's own pair energy (symmetrised); score must equal -sum/N within 1e-9 of the sum of |terms|. Uncut potential: any value between the 3-shell partial sum and the converged sum (+ analytic tail bound 2 pi rho/Rc^4) is accepted. The twin must score the same (cut potential: same tolerance; uncut: each inside its own admissible interval). Cases with coincident atoms (r < 1e-9) are skipped and counted. Non-trivial = some contributing pair involves an image with lattice index != 0 and (N >= 2 or a self-image term exists); distinct by hash of the numbers.";
+pub const RULE: &str = "cases = (group, LJ shape: circle sigma=1 uncut, or trimer radius 0.2..1.2 x angle 0..180 x distance 0..2 with cutoff 3.5) x cell (area per molecule log-uniform in 0.3..20 enclosing-disc areas, ratio 0.1..1, angle pi/6..pi/2 for oblique groups) x site (bound-heavy mixture) x a re-description twin {none, origin shift by (1/2,0),(0,1/2),(1/2,1/2), any shift along a free direction (p1: both; p1m1/p1g1: y), 2-fold re-description (-x,-y,phi+pi) for groups with a 2-fold, a copy moved across a face (x+-1 or y+-1)}; in a fifth of the cases the state object is first scored with another shape and then given the shape under test through its public field (a stale cached score would show). Oracle: the harness enumerates, from the lattice geometry, every unordered pair of distinct molecule images with centre distance below cutoff + 2 molecule radii (uncut: 30 sigma), each once, places the molecules itself and sums the package's own pair energy (symmetrised); score must equal -sum/N within 1e-9 of the sum of |terms|. Uncut potential: any value between the 3-shell partial sum and the converged sum (+ analytic tail bound 2 pi rho/Rc^4) is accepted. The twin must score the same (cut potential: same tolerance; uncut: each inside its own admissible interval). Cases with coincident atoms (r < 1e-9) are skipped and counted. Non-trivial = some contributing pair involves an image with lattice index != 0 and (N >= 2 or a self-image term exists); distinct by hash of the numbers. part multi-site: 2..4 occupied sites (initialise), same once-per-pair lattice sum over the union of the copies, per molecule. part golden: the 300 LJ structures of /verif/golden/lj.json re-read from their stored text and judged the same way (unreadable files are counted, not reported).";
 
 pub fn assumptions() -> Vec<&'static str> {
     vec![
@@ -93,6 +93,11 @@ pub fn lattice_energy(shape: &LJShape2, group: usize, p: &Params, rho: f64, max_
     let g = geom::group(group);
     let lat = Lattice::from_params(p.length, p.ratio, p.angle);
     let copies = geom::site_copies_cartesian(&g, &lat, p.x, p.y, p.phi);
+    lattice_energy_copies(shape, &lat, &copies, rho, max_shell)
+}
+
+/// the same for any list of placed copies (several occupied sites)
+pub fn lattice_energy_copies(shape: &LJShape2, lat: &Lattice, copies: &[Aff], rho: f64, max_shell: Option<i64>) -> Sum {
     let placed: Vec<LJShape2> = copies.iter().map(|c| shape.transform(&to_transform(c))).collect();
     let a = lat.va();
     let b = lat.vb();
@@ -120,7 +125,7 @@ pub fn lattice_energy(shape: &LJShape2, group: usize, p: &Params, rho: f64, max_
         for j in i..copies.len() {
             buf.clear();
             let delta = copies[j].t.sub(copies[i].t);
-            geom::lattice_vectors_within(&lat, delta, rho, &mut buf);
+            geom::lattice_vectors_within(lat, delta, rho, &mut buf);
             for (n, m, _) in buf.iter() {
                 if i == j && (*m < 0 || (*m == 0 && *n <= 0)) {
                     continue;
@@ -217,20 +222,26 @@ fn twin_params(c: &LjCase) -> Option<(Params, &'static str)> {
 }
 
 fn judge(shape: &LJShape2, group: usize, p: &Params, score: f64, uncut: bool, rho: f64, ctx: &Ctx, rec: &Rec, what: &str) -> Result<(bool, Sum), String> {
-    let n = geom::group(group).ops.len() as f64;
-    let full = lattice_energy(shape, group, p, rho, None);
+    let g = geom::group(group);
+    let lat = Lattice::from_params(p.length, p.ratio, p.angle);
+    let copies = geom::site_copies_cartesian(&g, &lat, p.x, p.y, p.phi);
+    judge_copies(shape, &lat, &copies, &format!("group {}, params {:?}", geom::GROUP_NAMES[group], p), score, uncut, rho, ctx, rec, what)
+}
+
+pub fn judge_copies(shape: &LJShape2, lat: &Lattice, copies: &[Aff], desc: &str, score: f64, uncut: bool, rho: f64, ctx: &Ctx, rec: &Rec, what: &str) -> Result<(bool, Sum), String> {
+    let n = copies.len() as f64;
+    let full = lattice_energy_copies(shape, lat, copies, rho, None);
     rec.eval(1);
     if !(full.min_r > 1e-9) {
         return Ok((false, full));
     }
     // conditioning: an atom pair at distance r computed from coordinates of size ~4 L carries a relative
     // error ~ eps 4L / r in r, hence 12x that in its energy
-    let cond = 100. * f64::EPSILON * 4. * p.length.max(1.) / full.min_r;
+    let cond = 100. * f64::EPSILON * 4. * lat.a.max(1.) / full.min_r;
     let tol = (1e-9 + cond) * full.abs / n + 1e-300;
     let want = -full.energy / n;
     if uncut {
-        let three = lattice_energy(shape, group, p, rho, Some(3));
-        let lat = Lattice::from_params(p.length, p.ratio, p.angle);
+        let three = lattice_energy_copies(shape, lat, copies, rho, Some(3));
         let density = n / lat.area();
         // tail beyond rho: all terms attractive when rho > 2^(1/6) sigma; |sum| <= 2 pi density /rho^4 per molecule (x 1/2 for pairs, x 4 eps)
         let tail = 2. * PI * density / rho.powi(4) * 1.5;
@@ -242,7 +253,7 @@ fn judge(shape: &LJShape2, group: usize, p: &Params, score: f64, uncut: bool, rh
             return Ok((false, full));
         }
         if !(score >= lo && score <= hi) {
-            return Err(format!("{}: score {} is outside the admissible interval [{}, {}] between the 3-shell partial sum and the converged lattice sum (once per pair) for group {}, params {:?}", what, score, lo, hi, geom::GROUP_NAMES[group], p));
+            return Err(format!("{}: score {} is outside the admissible interval [{}, {}] between the 3-shell partial sum and the converged lattice sum (once per pair) for {}", what, score, lo, hi, desc));
         }
         return Ok((true, full));
     }
@@ -250,11 +261,11 @@ fn judge(shape: &LJShape2, group: usize, p: &Params, score: f64, uncut: bool, rh
         return Ok((true, full));
     }
     let msg = format!(
-        "{}: score {} but minus the lattice energy per molecule is {} ({} pair terms, each pair once; farthest contributing image index {}) for group {}, params {:?}",
-        what, score, want, full.pairs, full.max_index, geom::GROUP_NAMES[group], p
+        "{}: score {} but minus the lattice energy per molecule is {} ({} pair terms, each pair once; farthest contributing image index {}) for {}",
+        what, score, want, full.pairs, full.max_index, desc
     );
     if full.max_index > 3 && ctx.known.listed("C03", "lj-beyond-3-shells") {
-        let three = lattice_energy(shape, group, p, rho, Some(3));
+        let three = lattice_energy_copies(shape, lat, copies, rho, Some(3));
         if (score + three.energy / n).abs() <= (1e-9 + cond) * three.abs / n + 1e-300 {
             rec.known("lj-beyond-3-shells", || format!("PotentialState::score sums only 3 shells of images; pairs inside the cutoff but further away are dropped in thin cells, e.g. {}", msg));
             return Ok((true, full));
@@ -330,6 +341,82 @@ fn oracle(c: &LjCase, rec: &Rec, ctx: &Ctx) -> Result<(), String> {
     Ok(())
 }
 
+// ------------------------------------------------------------------------------------------------
+// multi-site: 2..4 occupied sites; the energy per molecule counts every pair of placed molecules once
+
+fn multi_strat(_: &Ctx) -> BoxedStrategy<crate::multisite::MultiSpec> {
+    // cell area per molecule of 1..20 molecule discs (fraction relative to the area of the hard shape)
+    crate::multisite::multi_strat(lj_shape_spec(), 0.05, 0.9, 2, 4)
+}
+
+fn multi_oracle(c: &crate::multisite::MultiSpec, rec: &Rec, ctx: &Ctx) -> Result<(), String> {
+    use packing::traits::State;
+    let shape = lj_shape(&c.shape).ok_or("not an LJ shape")?;
+    let uncut = shape.items.iter().any(|a| a.cutoff.is_none());
+    let rc = shape.items.iter().map(|a| a.cutoff.unwrap_or(0.)).fold(0., f64::max);
+    let rho = if uncut { 30.0 } else { rc + 2. * mol_radius(&shape) + 1e-9 };
+    let lat = c.lattice();
+    let copies = c.copies();
+    if PI * rho * rho / lat.area() * copies.len() as f64 > 2.0e4 {
+        rec.class("skipped-work-bound");
+        return Ok(());
+    }
+    let state = crate::multisite::potential(c)?;
+    if state.total_shapes() != copies.len() {
+        return Err(format!("a state with {} occupied sites reports {} molecules, the group places {} ({})", c.sites.len(), state.total_shapes(), copies.len(), c.describe()));
+    }
+    let score = state.score().ok_or("PotentialState::score returned None")?;
+    let (judged, sum) = judge_copies(&shape, &lat, &copies, &c.describe(), score, uncut, rho, ctx, rec, "state with several occupied sites")?;
+    if !judged {
+        rec.class(if sum.min_r > 1e-9 { "skipped-uncut-small-cell" } else { "skipped-coincident-atoms" });
+        return Ok(());
+    }
+    let class = format!("{}sites/{}{}", c.sites.len(), if uncut { "circle-uncut" } else { "trimer-cut" }, if sum.max_index > 3 { "/beyond-3-shells" } else { "" });
+    rec.class(&class);
+    rec.nontrivial(crate::engine::hash_json(&serde_json::to_value(c).unwrap()));
+    if rec.wants_sample(&class) {
+        rec.sample(&class, || serde_json::json!({"case": c, "score": score, "pair_terms": sum.pairs}));
+    }
+    Ok(())
+}
+
+// ------------------------------------------------------------------------------------------------
+// golden: structures written by the pinned version, re-read from their stored text
+
+fn golden_judge(e: &crate::golden::GoldenEntry, rec: &Rec, ctx: &Ctx) -> Result<(), String> {
+    use packing::traits::State;
+    let c = &e.spec;
+    let state = match serde_json::from_str::<packing::PotentialState<LJShape2>>(&e.text) {
+        Ok(s) => s,
+        Err(_) => {
+            rec.class("unreadable");
+            return Ok(());
+        }
+    };
+    // the potential the file describes is the documented one for the requested shape
+    let shape = lj_shape(&c.shape).ok_or("not an LJ shape")?;
+    let uncut = shape.items.iter().any(|a| a.cutoff.is_none());
+    let rc = shape.items.iter().map(|a| a.cutoff.unwrap_or(0.)).fold(0., f64::max);
+    let rho = if uncut { 30.0 } else { rc + 2. * mol_radius(&shape) + 1e-9 };
+    let lat = c.lattice();
+    let copies = c.copies();
+    if PI * rho * rho / lat.area() * copies.len() as f64 > 2.0e4 {
+        rec.class("skipped-work-bound");
+        return Ok(());
+    }
+    let score = state.score().ok_or("PotentialState::score returned None for a stored structure")?;
+    let (judged, sum) = judge_copies(&shape, &lat, &copies, &c.describe(), score, uncut, rho, ctx, rec, "stored structure")?;
+    if !judged {
+        rec.class("skipped");
+        return Ok(());
+    }
+    rec.class(&format!("{}sites/{}", c.sites.len(), if uncut { "circle-uncut" } else { "trimer-cut" }));
+    if sum.nontrivial {
+        rec.nontrivial(crate::engine::hash_json(&serde_json::to_value(c).unwrap()));
+    }
+    Ok(())
+}
+
 pub fn parts() -> Vec<PartDef> {
-    vec![part("states", 600_000, 12_000_000, strat, oracle)]
+    vec![part("states", 600_000, 12_000_000, strat, oracle), part("multi-site", 100_000, 3_000_000, multi_strat, multi_oracle), crate::golden::golden_part("golden", "lj.json", golden_judge)]
 }
